@@ -235,4 +235,6 @@ def c14_sim_configs(tier):
         c14_config({"t1": "c1", "t2": "c2"}, {"t1": [0, 2], "t2": [1, 0]}, 4, 2, max_grow=2),
         c14_config({"t1": "c1", "t2": "c1", "t3": "c2", "t4": "c2"}, {"t1": [0, 3], "t2": [1], "t3": [1, 0], "t4": [2]}, 5, 2, max_grow=3, skip=(3,)),
         c14_config({"t1": "c1", "t2": "c1", "t3": "c1", "t4": "c2"}, {"t1": [0], "t2": [0, 1], "t3": [2, 0], "t4": [2, 1]}, 6, 3, max_grow=3),
+        # a private path is the first thing a client is asked for (before the client has initialised itself)
+        c14_config({"t1": "c1", "t2": "c1", "t3": "c2"}, {"t1": [2, 0], "t2": [2, 1], "t3": [2]}, 3, 2, max_grow=1, skip=(2,)),
     ]
